@@ -68,45 +68,79 @@ func verifName(name string) string {
 	return fmt.Sprintf("%s#%d", name, n)
 }
 
-func verifFloat(name string) float64 {
-	raw, ok := verifVars[verifName(name)]
+func verifAuto() (string, bool) { seed, ok := verifVars["*auto"]; return seed, ok }
+
+func verifFloatB(name string, bits int) float64 {
+	full := verifName(name)
+	raw, ok := verifVars[full]
 	if !ok || !strings.HasPrefix(raw, "f:") {
+		if seed, auto := verifAuto(); auto {
+			x := autoFloat(seed, full)
+			if bits == 32 {
+				x = float64(float32(x))
+			}
+			return x
+		}
 		return 0
 	}
 	u, _ := strconv.ParseUint(raw[2:], 16, 64)
 	return math.Float64frombits(u)
 }
 
-func VerifFloat64(name string) float64 { return verifFloat(name) }
-func VerifFloat32(name string) float32 { return float32(verifFloat(name)) }
-func VerifFinite64(name string) float64 { return verifFloat(name) }
-func VerifFinite32(name string) float32 { return float32(verifFloat(name)) }
+func VerifFloat64(name string) float64  { return verifFloatB(name, 64) }
+func VerifFloat32(name string) float32  { return float32(verifFloatB(name, 32)) }
+func VerifFinite64(name string) float64 { return verifFloatB(name, 64) }
+func VerifFinite32(name string) float32 { return float32(verifFloatB(name, 32)) }
 
 func VerifInt(name string, lo, hi int) int {
-	raw, ok := verifVars[verifName(name)]
+	full := verifName(name)
+	raw, ok := verifVars[full]
 	if !ok {
+		if seed, auto := verifAuto(); auto {
+			return int(autoInt(seed, full, int64(lo), int64(hi)))
+		}
 		return lo
 	}
 	n, _ := strconv.ParseInt(raw, 10, 64)
 	return int(n)
 }
 func VerifAnyInt(name string) int {
-	raw, ok := verifVars[verifName(name)]
+	full := verifName(name)
+	raw, ok := verifVars[full]
 	if !ok {
+		if seed, auto := verifAuto(); auto {
+			return int(autoInt(seed, full, -1000, 1000))
+		}
 		return 0
 	}
 	n, _ := strconv.ParseInt(raw, 10, 64)
 	return int(n)
 }
 func VerifIntN(name string, bits int) int64 {
-	raw, ok := verifVars[verifName(name)]
+	full := verifName(name)
+	raw, ok := verifVars[full]
 	if !ok {
+		if seed, auto := verifAuto(); auto {
+			if bits < 64 {
+				return autoIntN(seed, full, bits)
+			}
+			return autoInt(seed, full, -1000, 1000)
+		}
 		return 0
 	}
 	n, _ := strconv.ParseInt(raw, 10, 64)
 	return n
 }
-func VerifBool(name string) bool       { return verifVars[verifName(name)] == "true" }
+func VerifBool(name string) bool {
+	full := verifName(name)
+	raw, ok := verifVars[full]
+	if !ok {
+		if seed, auto := verifAuto(); auto {
+			return autoBool(seed, full)
+		}
+	}
+	return raw == "true"
+}
 func VerifChoice(name string, n int) int { return VerifInt(name, 0, n-1) }
 func VerifConc(x int) int              { return x }
 func VerifAssume(cond bool) {
@@ -181,3 +215,57 @@ func VerifItoa(i int) string { return strconv.Itoa(i) }
 func VerifPool(k int)             {}
 func VerifPoolInterference() int  { return 0 }
 func VerifNilError() error        { return nil }
+
+// write watch (executor only; natively the harness compares the object after the call)
+func VerifWatch(label string, obj interface{}) {}
+func VerifUnwatch(label string)                {}
+
+// definedness obligations (executor only, real interpretation): see engine/exec/watch.go
+func VerifDefinedAs(label string) {}
+
+// same derivation as engine/exec/auto.go
+func autoHash(seed, name string) uint64 {
+	h := uint64(14695981039346656037)
+	for _, s := range []string{seed, "/", name} {
+		for i := 0; i < len(s); i++ {
+			h ^= uint64(s[i])
+			h *= 1099511628211
+		}
+	}
+	// final avalanche (splitmix64)
+	h ^= h >> 30
+	h *= 0xbf58476d1ce4e5b9
+	h ^= h >> 27
+	h *= 0x94d049bb133111eb
+	h ^= h >> 31
+	return h
+}
+
+var autoSpecials = []float64{0.5, 1, 2, 3, 0.25, 1.5, 7.25, 0.125, -1, -2.5, 0, 4}
+
+func autoFloat(seed, name string) float64 {
+	h := autoHash(seed, name)
+	if h%10 < 3 {
+		return autoSpecials[(h>>8)%uint64(len(autoSpecials))]
+	}
+	// three decimals in (-4, 4), biased to positive values (most harness
+	// assumptions ask for positive parameters)
+	x := float64(int64((h>>8)%4001)) / 1000
+	if (h>>40)%4 == 0 {
+		x = -x
+	}
+	return x
+}
+
+func autoInt(seed, name string, lo, hi int64) int64 {
+	if hi < lo {
+		return lo
+	}
+	return lo + int64(autoHash(seed, name)%uint64(hi-lo+1))
+}
+
+func autoIntN(seed, name string, bits int) int64 {
+	return int64(autoHash(seed, name)) >> uint(64-bits)
+}
+
+func autoBool(seed, name string) bool { return autoHash(seed, name)&1 == 1 }
